@@ -970,6 +970,37 @@ func (bp *boundsProver) dynTargets(call ssa.CallInstruction) ([]*ssa.Function, b
 	return out, len(out) > 0
 }
 
+// dynArgs: the objects a dynamic call hands to its target: the explicit arguments and, when the callee
+// value is a slot of a local table of bound method values, the receiver bound in every slot (provided all
+// slots bind the same values).
+func dynArgs(call ssa.CallInstruction) []ssa.Value {
+	out := append([]ssa.Value{}, call.Common().Args...)
+	ix, ok := call.Common().Value.(*ssa.Index)
+	if !ok {
+		return out
+	}
+	binds := funcTableBindings(ix.X)
+	var common []ssa.Value
+	for i, mc := range binds {
+		if mc == nil {
+			return out
+		}
+		if i == 0 {
+			common = mc.Bindings
+			continue
+		}
+		if len(mc.Bindings) != len(common) {
+			return out
+		}
+		for j := range common {
+			if mc.Bindings[j] != common[j] {
+				return out
+			}
+		}
+	}
+	return append(out, common...)
+}
+
 // nilFacts: consequences of ref == nil (isNil) or ref != nil.
 func (fb *fnBounds) nilFacts(ref ssa.Value, isNilCase bool, at ssa.Instruction) []constraint {
 	call, ok := ref.(*ssa.Call)
@@ -985,7 +1016,7 @@ func (fb *fnBounds) nilFacts(ref ssa.Value, isNilCase bool, at ssa.Instruction) 
 			return nil
 		}
 		var cs []constraint
-		for i, a := range call.Call.Args {
+		for i, a := range dynArgs(call) {
 			pt, ok := a.Type().Underlying().(*types.Pointer)
 			if !ok {
 				continue
